@@ -31,6 +31,30 @@ def install(m):
         m.add_constraint(z3.And(v >= lo, v <= hi))
         return v
 
+    @reg("$verifChoice")
+    def nd_choice(m, alt, fr, ins, args, work):
+        # a small-domain input as a guarded set of concrete values (keeps downstream arithmetic concrete)
+        name, lo, hi = args
+        v = m.nondet(name, "int")
+        m.add_constraint(z3.And(v >= lo, v <= hi))
+        return mk_union([(_n(v == i), i) for i in range(lo, hi + 1)])
+
+    CLOCK = ("g", "$clock")
+    m.heap[CLOCK] = 0
+
+    @reg("$verifClock", vis=True)
+    def nd_clock(m, alt, fr, ins, args, work):
+        # a monotonic clock shared by all goroutines: every reading is a scheduling point that reads and writes one
+        # global cell (so readings are totally ordered in every schedule) and is >= the previous reading
+        name, lo, hi = args
+        v = m.nondet(name, "int")
+        m.add_constraint(z3.And(v >= lo, v <= hi))
+        last = m.hget(alt, CLOCK)
+        m.add_constraint(z3.Implies(B(alt.guard), B(m.bool_of(int_binop(m, ">=", v, last, 64, True)))))
+        val = mk_union([(_n(v == i), i) for i in range(lo, hi + 1)])
+        m.hset(alt, CLOCK, val)
+        return val
+
     @reg("$verifNondetInt64")
     def nd_int64(m, alt, fr, ins, args, work):
         return m.nondet(args[0], "int")
@@ -121,6 +145,14 @@ def install(m):
     @reg("$verifGet")
     def vget(m, alt, fr, ins, args, work):
         return m.load(alt, args[0])
+
+    @reg("$cut")
+    def vcut(m, alt, fr, ins, args, work):
+        # stated cut: runs that reach this call are outside the claim (recorded in the evidence)
+        pos = ins.get("pos") if ins else ""
+        m.cuts.add("runs reaching the call at %s (%s) are outside the bound" % (pos, fr.fn.name.rsplit("/", 1)[-1]))
+        m.add_constraint(NOT(alt.guard))
+        return DEAD
 
     @reg("$verifMerge", vis=True)
     def vmerge(m, alt, fr, ins, args, work):
@@ -585,6 +617,8 @@ def install(m):
         i, base = args
         if is_int_conc(i):
             return fmtint(i, base)
+        if type(i) is Union and all(is_int_conc(x) for g, x in i.alts):
+            return lift1(i, lambda x: fmtint(x, base))
         return Opaque(("FormatInt", i, base))
 
     @reg("strconv.FormatUint")
@@ -592,6 +626,8 @@ def install(m):
         i, base = args
         if is_int_conc(i):
             return fmtint(i, base)
+        if type(i) is Union and all(is_int_conc(x) for g, x in i.alts):
+            return lift1(i, lambda x: fmtint(x, base))
         return Opaque(("FormatUint", i, base))
 
     @reg("strconv.FormatBool")
@@ -945,6 +981,18 @@ def install(m):
             m.add_constraint(v >= 0)
         m.last_now = v
         return v
+
+    @reg("github.com/muyo/sno/internal.Snotime")
+    def snotime(m, alt, fr, ins, args, work):
+        # the clock in sno's 4 ms units: arbitrary (progress, standstill and regression are all possible),
+        # within the 39 bits of the id's timestamp field
+        v = m.nondet("snotime", "int")
+        m.add_constraint(z3.ULT(v, z3.BitVecVal(1 << 39, 64)))
+        return v
+
+    @reg("sync.NewCond")
+    def sync_newcond(m, alt, fr, ins, args, work):
+        return Ptr(m.new_obj(alt, ("cond", args[0])))
 
     @reg("time.ParseDuration")
     def time_parseduration(m, alt, fr, ins, args, work):
